@@ -226,26 +226,45 @@ func (m *M) withdraw(t *Token) {
 	m.checkScopeDone(s)
 }
 
-// parallelSatisfied keeps, per catch node, which definitions have been
-// matched since it was armed; true when all are (state then reset).
+// parallelSatisfied is the accounting of a parallel-multiple catch event
+// (property C14): per node it counts how often each definition has been
+// matched by events delivered while the node was listening, over the whole
+// life of the instance, and how often the node has fired. The node fires when
+// its least-matched definition has been matched more often than it has fired:
+// it never fires more often than that minimum, and has fired exactly k times
+// whenever every definition has been matched exactly k times. Matches that
+// are in surplus when the node fires keep counting for a later listener;
+// events delivered while the node is not listening are never counted (C11).
 func (m *M) parallelSatisfied(s *Scope, n *gen.Node, e Ev) bool {
-	if m.parSeen == nil {
-		m.parSeen = map[string]map[int]bool{}
+	if m.parCount == nil {
+		m.parCount = map[string][]int{}
+		m.parFired = map[string]int{}
 	}
 	key := n.ID
-	seen := m.parSeen[key]
-	if seen == nil {
-		seen = map[int]bool{}
-		m.parSeen[key] = seen
+	c := m.parCount[key]
+	if c == nil {
+		c = make([]int, len(n.Defs))
+		m.parCount[key] = c
 	}
+	matched := false
 	for i, d := range n.Defs {
 		if Matches(d, e) {
-			seen[i] = true
+			c[i]++
+			matched = true
 			break
 		}
 	}
-	if len(seen) == len(n.Defs) {
-		delete(m.parSeen, key)
+	if !matched {
+		return false
+	}
+	mn := c[0]
+	for _, v := range c {
+		if v < mn {
+			mn = v
+		}
+	}
+	if mn > m.parFired[key] {
+		m.parFired[key]++
 		return true
 	}
 	return false
